@@ -175,6 +175,9 @@ def check(facts, rep, tier, cfg):
                        "an intermediate store that is strictly first-in first-out (no store at all on the pinned tree)")
     check_datagram_fifo(facts, rep, crate)
     check_option_setters(facts, rep, crate, "C11.R4", ['datagram_buffer_size'])
+    rep.rule("C11.S7", "who-may: the functions that touch the critical resources behind this property are those of the reference tree (flow table, closed flag, per-stream / datagram / outbound queues, last-pong timestamp, client id maps, shared TLS identity)")
+    import whomay
+    whomay.check(facts, rep, "C11.S7", "C11")
 
 
 _RECV_ONE = {"recv", "poll_recv", "try_recv", "blocking_recv"}
